@@ -15,6 +15,7 @@ from ..core import where_of, trace_of
 from ..interp import fmt, contains
 from ..model import AnalysisError, ClassInfo
 from .. import q
+from .. import roles
 
 BIN = {
     "add": "+", "sub": "-", "mul": "*", "truediv": "/", "floordiv": "//", "mod": "%", "lshift": "<<", "rshift": ">>",
@@ -219,7 +220,8 @@ def check(ctx, rep):
     rep.require(cm is not None, "NoCancelFuture: no cancel() in the library part of the MRO")
     ps, it = ctx.paths(cm, nc)
     for p in ps:
-        bad = [e for e in p.calls() if q.call_name(e) in ("cancel", "_me_cancel") or (e.d["callee"] is not None and e.d["callee"].name in ("cancel", "_me_cancel"))]
+        HK = roles.proto(ctx).hook
+        bad = [e for e in p.calls() if q.call_name(e) in ("cancel", HK) or (e.d["callee"] is not None and e.d["callee"].name in ("cancel", HK))]
         rep.ob("R-NOCANCEL", "NoCancelFuture.cancel returns False", p.status == "return" and p.value == ("const", False), "cancel() of the shield (resolved to %s) must return the constant False on every path, found %s (%s) on path [%s]" % (cm.qualname, fmt(p.value), p.status, q.path_sig(p)[:80]), where_of(cm), trace_of(p))
         rep.ob("R-NOCANCEL", "NoCancelFuture.cancel calls nothing that cancels", not bad, "cancel() of the shield reaches %s" % (fmt(bad[0].d["func"]) if bad else ""), where_of(cm), trace_of(p))
     fnc = prog.fn("nocancel:f_nocancel")
